@@ -110,6 +110,24 @@ func Post(N int, yield func(idx int64, batch []Doc, kinds []int) bool) {
 	}
 }
 
+// PostExact enumerates the batches of POST with exactly n documents (indices start at 0).
+func PostExact(n int, yield func(idx int64, batch []Doc, kinds []int) bool) {
+	var idx int64
+	Pow(NK, n, func(v []int) bool {
+		batch := make([]Doc, n)
+		for i, k := range v {
+			if k != KAbsent {
+				batch[i] = Doc{fld("a", TermKind("x", k, ""))}
+			} else {
+				batch[i] = Doc{}
+			}
+		}
+		r := yield(idx, batch, v)
+		idx++
+		return r
+	})
+}
+
 // TermScope enumerates TERM(N): one non-doc-value field "a", n<=N docs, each (doc, term in T)
 // in {absent, f1, f1+loc} (nk=3) or {absent, f1+loc} (nk=2).
 func TermScope(N, nk int, yield func(idx int64, batch []Doc) bool) {
